@@ -1,12 +1,16 @@
 import DispatchVerif.Core.LaneWMain
+import DispatchVerif.Core.LaneWOrd
 /-! # C04 — barriers on concurrent queues exclude and order like a writer lock
 
 `LaneW`: a lane of any width `W ≥ 1` — async push with the `try_acquire_async` fast path, reader and barrier sync fast
 and slow paths, lock transfer to waiters, `barrier_complete`, `drain_non_barriers` with the pending-barrier
 reservation, `non_barrier_complete(+try_lock)`, the redirecting drainer with `try_upgrade_full_width`,
 `drain_try_unlock` with the DIRTY re-check, and the width reservation of `dispatch_apply` — for any number of threads.
-*Partial*: the two ordering clauses (items submitted before / after a barrier) are observed by the oracle on the real
-library; the theorems are exclusion and exact width accounting. -/
+The two ordering clauses are stated for the order in which items reach the queue's list (the tail exchange inside the
+submitting call): items leave the list in the order they entered it, for every width (`fifo_every_width`); a thread owns the
+lane in barrier mode only while no reader popped before is unfinished (`barrier_after_earlier_readers`); nothing else starts
+while a barrier item runs (`nothing_starts_during_barrier`). Items started by a fast path never enter the list; that a
+synchronous fast path can overtake a queued item is finding F15 (C02.F15_sync_fast_path_overtakes). -/
 namespace C04
 open LaneW
 
@@ -33,5 +37,24 @@ theorem nonbarrier_running_accounted {W : Nat} (hW : 1 ≤ W) {s : St} (h : Reac
     (i : ItemId) (a : After) (hb : a.isBar = false) (ht : s.pcs t = .running i a) :
     s.sh.dq.B = false ∧ 1 ≤ s.sh.dq.u :=
   LaneW.nonbarrier_running_accounted hW h t i a hb ht
+
+/-- **items leave the queue in the order they entered it, whatever the width**: along every execution, the ids pushed so far
+    are the ids popped so far followed by the ids still queued -/
+theorem fifo_every_width {W : Nat} {s : St} {A P : List ItemId} (h : ReachH W s A P) : A = P ++ ids s.sh.items :=
+  pushed_eq_popped_queued h
+
+/-- **a barrier starts only after the readers popped before it have finished**: while a thread owns the lane in barrier mode
+    - from before it pops the barrier item until after the item has finished - no reader is redirected and not yet picked
+    up, none is signalled and not yet running, none holds a width unit -/
+theorem barrier_after_earlier_readers {W : Nat} (hW : 1 ≤ W) {s : St} (h : Reachable W s) (t : Tid)
+    (hb : holdsB (s.pcs t) = true) :
+    s.sh.holders = [] ∧ s.sh.redirects = 0 ∧ s.sh.sigN = [] ∧ ∀ t', unitsOf (s.pcs t') = 0 :=
+  barrier_owner_alone hW h t hb
+
+/-- **items behind a barrier do not start until it has finished**: while a barrier item runs no other thread is about to
+    start, or inside, any item of the lane (and the list is popped only by the lock holder) -/
+theorem nothing_starts_during_barrier {W : Nat} (hW : 1 ≤ W) {s : St} (h : Reachable W s) (t t' : Tid)
+    (hb : isRunningB (s.pcs t) = true) (hi : isItemPc (s.pcs t') = true) : t = t' :=
+  nothing_starts_while_barrier_runs hW h t t' hb hi
 
 end C04
